@@ -317,6 +317,7 @@ CHECKS = {
         assumptions=["the real binary built from the working tree is run as a subprocess; the library image is the oracle for make-iso (its own correctness is C07/C08)"],
         units=[
             dict(test="TestC20Tools", unit="tools", kind="rapid", checks=(480, 12000), shards=(8, 16), bin=True),
+            dict(test="TestC20Race", unit="race", kind="rapid", checks=(64, 1600), shards=(8, 16), bin=True, shrink_s=5),
         ],
     ),
     "C04": dict(
